@@ -98,7 +98,7 @@ def run(chk: harness.Check):
     import c12
     sub = harness.Check("C12", chk.tier)
     c12.run(sub)
-    harness.fold(chk, sub, lambda r: "C09.D7-fraction-exact" if r.startswith("C12.") else r,
+    harness.fold(chk, sub, lambda r: "C09.D7-fraction-exact." + r.split(".", 1)[1] if r.startswith("C12.") else r,
                  keep=lambda r: r in ("C12.D1-agreement", "C12.D2-limits", "anchor-missing"))
     chk.analysed["facts"] = th
 
